@@ -183,3 +183,114 @@ def draw_theory(rng, kind):
     if kind in ('auto', 'classMie'):
         return None
     return ('theory', theory_args(rng, kind), {'kind': kind})
+
+
+# ---------------------------------------------------------------------------
+# validity of a *resolved* calculation (used by oracles; independent of the
+# generator's own bookkeeping so that it stays right under minimisation)
+# ---------------------------------------------------------------------------
+
+def sc_kind_of(ev):
+    if ev is None:
+        return None
+    op = ev['op']
+    if op == 'sphere':
+        r = ev['args'].get('r')
+        if isinstance(r, list):
+            return 'layered'
+        if isinstance(r, (int, float)) and r <= 0:
+            return 'invalid'
+        if ev['args'].get('center') is None:
+            return 'invalid'
+        return 'sphere'
+    if op == 'layered_sphere':
+        return 'layered'
+    if op in ('spheres', 'spheroid', 'cylinder'):
+        return op
+    return None
+
+
+def th_kind_of(ex, th):
+    if th == 'auto' or th is None:
+        return 'auto'
+    if isinstance(th, str) and th.startswith('class:'):
+        return 'class' + th[6:]
+    if isinstance(th, dict) and 'ref' in th:
+        ev = ex.events_by_id.get(th['ref'])
+        if ev is None or ev['op'] != 'theory':
+            return None
+        a = ev['args']
+        k = a['kind']
+        if k == 'Mie':
+            o = a.get('options') or {}
+            if o.get('compute_escat_radial') is False and \
+                    o.get('full_radial_dependence') is False:
+                return 'MieFar'
+            return 'Mie'
+        if k == 'Lens':
+            return 'Lens' + a['inner']['kind']
+        return k
+    return None
+
+
+def effective_optics(ex, ra):
+    o = dict(ra.get('optics') or {})
+    det = ra.get('det')
+    if isinstance(det, dict) and 'ref' in det:
+        dev = ex.events_by_id.get(det['ref'])
+        stored = (dev['args'].get('optics') or {}) if dev else {}
+        for k, v in stored.items():
+            if o.get(k) is None:
+                o[k] = v
+    return o
+
+
+def calc_is_valid(ex, rec):
+    """True iff the resolved calculation is one HoloPy documents as
+    supported (so that an exception of a programming-error class, a
+    non-finite value or a crash is a defect and not a rejected input)."""
+    ra = rec.get('rargs') or {}
+    kind = ra.get('kind')
+    sev = ex.events_by_id.get((ra.get('sc') or {}).get('ref'))
+    sk = sc_kind_of(sev)
+    tk = th_kind_of(ex, ra.get('th'))
+    if sk not in COMPAT or tk is None:
+        return False
+    if tk not in COMPAT[sk]:
+        return False
+    o = effective_optics(ex, ra)
+    need = ['medium_index', 'illum_wavelen']
+    if kind != 'scat_matrix':
+        need.append('illum_polarization')
+    if any(o.get(k) is None for k in need):
+        return False
+    uses_tm = tk in NEEDS_X_POL or (tk == 'auto' and
+                                    sk in ('spheroid', 'cylinder'))
+    if uses_tm and kind != 'scat_matrix':
+        pol = o.get('illum_polarization')
+        if not (isinstance(pol, list) and len(pol) == 2 and pol[1] == 0
+                and pol[0] > 0):
+            return False
+    if kind == 'cross_sections':
+        if sk in ('sphere', 'layered'):
+            return tk in ('Mie', 'MieFar', 'auto', 'classMie')
+        if sk == 'spheres':
+            return tk == 'Multisphere'
+        return False
+    dev = ex.events_by_id.get((ra.get('det') or {}).get('ref'))
+    if dev is None:
+        return False
+    if dev['op'] == 'detector_points':
+        c = dev['args']['coords']
+        sph = 'theta' in c
+        if sph and 'r' not in c and kind != 'scat_matrix':
+            return False
+        if tk in LENS_KINDS and (sph or isinstance(c.get('z'), list)):
+            return False
+    elif dev['op'] not in ('detector_grid', 'image'):
+        return False
+    if kind == 'scat_matrix' and tk in LENS_KINDS + ('Multisphere',):
+        return False
+    if kind == 'scat_matrix' and sk == 'spheres':
+        return False
+    return True
